@@ -375,7 +375,7 @@ def make_group(rng, n_inv, fixed=None, nrows=None, measure_types=None):
     invs = []
     tries = 0
     want = list(fixed) if fixed else [None] * n_inv
-    while want and tries < 60:
+    while want and tries < 90:
         tries += 1
         w = want[0]
         inv = gen_invocation(rng, d["shape"], *(w or ()))
@@ -414,7 +414,7 @@ def group_coq(g, renames) -> str:
 
 
 def eval_groups(groups, renames_list, tag):
-    return coq_eval(HEADER, [group_coq(g, r) for g, r in zip(groups, renames_list)], tag, shard=2)
+    return coq_eval(HEADER, [group_coq(g, r) for g, r in zip(groups, renames_list)], tag, shard=1)
 
 
 # ------------------------------------------------------------------ comparison
